@@ -7,6 +7,7 @@ package qgen
 
 import (
 	"fmt"
+	"math/big"
 	"strings"
 
 	. "verif/mc/sqlref"
@@ -34,9 +35,12 @@ func (g GQ) Classes() []string {
 }
 
 func c(t, col string) Col { return Col{T: t, C: col} }
-func k(i int64) Const    { return Const{V: Int(i)} }
+func k(i int64) Const     { return Const{V: Int(i)} }
 
 var knull = Const{V: Null}
+
+// kdec is the decimal literal n/d (rendered with four decimals, e.g. 1.5000)
+func kdec(n, d int64) Const { return Const{V: Rat(big.NewRat(n, d))} }
 
 // alt is one alternative of a slot: it edits the query in place; ok=false = incompatible.
 type alt struct {
@@ -183,6 +187,8 @@ func atoms(joined bool) []natom {
 	for _, not := range []bool{false, true} {
 		add(InList{a, []Expr{k(1), k(2)}, not})
 		add(InList{a, []Expr{k(1), knull}, not})
+		// elements of one kind but two types: the integer column must be compared as a decimal
+		add(InList{a, []Expr{k(1), kdec(3, 2)}, not})
 		add(InList{b, []Expr{knull}, not})
 		add(InList{a, []Expr{b, k(2)}, not})
 		add(Between{a, k(1), k(2), not})
